@@ -91,7 +91,7 @@ def read(text, fixed, length_limit=True):
         return norm(list(rd.FortranReader(os.path.join(d, "t.f"), docmark="!", fixed=fixed, length_limit=length_limit)))
 
 
-def cases(seed=0, extra_random=40):
+def cases(seed=0, extra_random=40, keep_n=400):
     docs = {1, 3}
     base = []
     for cont_char, comment_style, seqfield, inline_doc in itertools.product(["&", "1", "x", "$"], ["", "c", "C", "*", "!"], [False, True], [False, True]):
@@ -100,7 +100,7 @@ def cases(seed=0, extra_random=40):
                 base.append((dict([(si, bi)]), cont_char, comment_style, seqfield, inline_doc))
     rnd = random.Random(seed)
     rnd.shuffle(base)
-    keep = base[:400]
+    keep = base[:keep_n]
     for k in keep:
         yield (docs,) + k
 
@@ -149,12 +149,12 @@ def inline_comment_on_continued_line():
     return None
 
 
-def search(seed=0):
+def search(seed=0, keep_n=400):
     hit = limit_off_case() or inline_comment_on_continued_line()
     if hit:
         return hit
     n = 0
-    for docs, breaks, cont_char, comment_style, seqfield, inline_doc in cases(seed):
+    for docs, breaks, cont_char, comment_style, seqfield, inline_doc in cases(seed, keep_n=keep_n):
         if seqfield and inline_doc:
             continue        # the known finding, reported separately
         n += 1
@@ -173,5 +173,5 @@ def search(seed=0):
     return None
 
 
-def count_cases(seed=0):
-    return sum(1 for _ in cases(seed))
+def count_cases(seed=0, keep_n=400):
+    return sum(1 for _ in cases(seed, keep_n=keep_n))
